@@ -924,6 +924,9 @@ def concretise_lines(struct, rng, pools):
         if x == "LF":
             out.append("\n")
         elif x == "a":
+            # now and then a word that begins with a combining mark (still "letters and combining marks")
+            if (not out or out[-1] == "\n") and rng.random() < 0.15:
+                out.append(rng.choice(pools["marks"]))
             out.append(rng.choice(pools[script]))
         else:
             out.append(rng.choice(pools[script]) + rng.choice(pools["marks"]))
@@ -938,6 +941,10 @@ def random_list(rng, pools, nlines):
             continue
         script = rng.choice(["latin", "latin", "hiragana", "hangul", "han", "other"])
         w = "".join(rng.choice(pools[script]) + (rng.choice(pools["marks"]) if rng.random() < 0.2 else "") for _ in range(rng.randrange(1, 9)))
+        if out and rng.random() < 0.05:
+            w = out[-1] or w                         # the same word twice in a row: the output keeps both
+        if rng.random() < 0.03:
+            w = rng.choice(pools["marks"]) + w       # a word beginning with a mark
         out.append(w)
     s = "\n".join(out)
     return s + ("\n" if rng.random() < 0.6 else "")
